@@ -752,7 +752,7 @@ static const Space &space(const std::string &name) {
 	if (it != g_spaces.end()) return it->second;
 	Space s;
 	s.name = name;
-	if (name == "memcheck") {
+	if (name == "memcheck" || name == "xbuild") {
 		// every corpus/feature file in its own mode and with -E, every preprocessed source of cproc itself, and the smallest knob of every stress family
 		s.total = g_corpus.size() * 2 + g_own.size() + stress_fams().size();
 		return g_spaces[name] = s;
@@ -769,6 +769,12 @@ static const Space &space(const std::string &name) {
 static Plan space_plan(const std::string &name, uint64_t index, const std::string &prop) {
 	const Space &s = space(name);
 	index %= s.total ? s.total : 1;
+	if (name == "xbuild") {
+		// the same workload list under the null plan: what is compared is the build, not the schedule
+		Plan q = null_plan(space_plan("memcheck", index, prop));
+		q.label = "space:xbuild";
+		return q;
+	}
 	if (name == "memcheck") {
 		Plan p;
 		Rng r(run_seed(g_space_seed, "memcheck", index));
@@ -1145,6 +1151,27 @@ int main(int argc, char **argv) {
 		fprintf(stderr, "%s steps=%llu allocs=%u reads=%u writes=%u maxdepth=%u msg=%s\n", o.signature.c_str(), (unsigned long long)o.r.steps, o.r.nalloc, o.r.nread, o.r.nwrite, o.r.maxdepth, o.r.msg);
 		return 0;
 	}
+	if (cmd == "plan") {
+		// the plan of one index of a space, as JSON (used by the check to write replay files it decides itself)
+		g_space_seed = strtoull(opt["seed"].c_str(), nullptr, 0);
+		Plan p = space_plan(opt["space"], strtoull(opt["index"].c_str(), nullptr, 0), opt["prop"]);
+		printf("%s\n", p.to_json(false).str().c_str());
+		return 0;
+	}
+	if (cmd == "outcome") {
+		// run the plan of a replay file once, print what came out (no verdict)
+		if (pos.empty()) usage_exit();
+		std::string text;
+		Json j;
+		if (!read_file(pos[0], text) || !Json::parse(text, j)) { fprintf(stderr, "cannot read %s\n", pos[0].c_str()); return 2; }
+		Plan p;
+		const Json *pj = j.get("plan");
+		if (!Plan::from_json(pj ? *pj : j, p, g_repo)) { fprintf(stderr, "bad plan\n"); return 2; }
+		Outcome o = run_plan(p, true, false);
+		printf("%s %d %s %llu\n", kind_name[o.r.kind], o.r.status, hex64(o.r.sink_hash).c_str(), (unsigned long long)o.r.sink_len);
+		if (opt.count("dump")) fwrite(o.sink.data(), 1, o.sink.size(), stdout);
+		return 0;
+	}
 	if (cmd == "replay") {
 		if (pos.empty()) usage_exit();
 		std::string text;
@@ -1182,6 +1209,7 @@ int main(int argc, char **argv) {
 	uint64_t hashes_below = opt.count("hashes-below") ? strtoull(opt["hashes-below"].c_str(), nullptr, 0) : ~0ULL;
 	FILE *hf = opt.count("hashes") ? fopen(opt["hashes"].c_str(), "w") : nullptr;
 	FILE *sigf = opt.count("sigs-out") ? fopen(opt["sigs-out"].c_str(), "w") : nullptr;
+	FILE *sinkf = opt.count("sinks") ? fopen(opt["sinks"].c_str(), "w") : nullptr;
 	int max_viol = opt.count("max-violations") ? atoi(opt["max-violations"].c_str()) : 5;
 	StatsB st;
 	int nviol = 0, gate_fail = 0;
@@ -1232,6 +1260,7 @@ int main(int argc, char **argv) {
 		if (opt.count("trace-index") && strtoull(opt["trace-index"].c_str(), nullptr, 0) == index)
 			fprintf(stderr, "TRACE index=%llu %s ev=%s sink=%s/%llu steps=%llu allocs=%u reads=%u writes=%u fired=%x depth=%u msg=%s plan=%s\n", (unsigned long long)index, o.signature.c_str(), hex64(o.r.ev_hash).c_str(), hex64(o.r.sink_hash).c_str(),
 			        (unsigned long long)o.r.sink_len, (unsigned long long)o.r.steps, o.r.nalloc, o.r.nread, o.r.nwrite, o.r.fired, o.r.maxdepth, o.r.msg, p.to_json(false).str().c_str());
+		if (sinkf) fprintf(sinkf, "%llu %s %d %s %llu\n", (unsigned long long)index, kind_name[o.r.kind], o.r.status, hex64(o.r.sink_hash).c_str(), (unsigned long long)o.r.sink_len);
 		if (hf && index < hashes_below) fprintf(hf, "%llu %s\n", (unsigned long long)index, hex64(mix(o.r.ev_hash, mix(o.r.sink_hash, (uint64_t)o.r.kind * 256 + (uint64_t)o.r.status))).c_str());
 		if (st.samples.size() < 3 && (n % 211) == 0) {
 			Json s = Json::obj();
@@ -1307,6 +1336,7 @@ int main(int argc, char **argv) {
 	}
 	if (hf) fclose(hf);
 	if (sigf) fclose(sigf);
+	if (sinkf) fclose(sinkf);
 	if (opt.count("out")) {
 		Json j = Json::obj();
 		j.set("runs", (unsigned long long)st.runs).set("steps", (unsigned long long)st.steps).set("distinct", (unsigned long long)st.distinct.size());
